@@ -7,6 +7,8 @@ From GL Require Import Store.Crash.
 From GL Require Export Corr.C04BytesRun.
 (* the manifest record codec / manifest replay cases have their own evaluator too; built along *)
 From GL Require Export Corr.C04RecRun.
+(* the composed Open on whole storage images (Store/OpenPath.v); not imported: its names overlap with C12's *)
+From GL Require Corr.C04OpenRun.
 
 Inductive c04case :=
 | KCrash (ops : list pop) (keep_all : bool) (observed : list N).   (* observed: 0-based issue indexes kept *)
